@@ -10,6 +10,7 @@ import (
 	"sort"
 	"strconv"
 	"strings"
+	"time"
 
 	"github.com/la5nta/wl2k-go/lzhuf"
 
@@ -31,24 +32,28 @@ type PeerMsg struct {
 }
 
 type PeerScript struct {
-	Master     bool              `json:"master"`     // the peer initiates the handshake
-	Sid        string            `json:"sid"`        // complete SID line without CR
-	Motd       []string          `json:"motd"`       // free text before the handshake (master only)
-	Comments   []string          `json:"comments"`   // comment lines (";...") placed inside the handshake
-	Fw         string            `json:"fw"`         // complete ;FW line or ""
-	PQ         string            `json:"pq"`         // secure login challenge ("" = none; master only)
-	HasPQ      bool              `json:"haspq"`      // send ;PQ even when the challenge is empty
-	PQFirst    bool              `json:"pqfirst"`    // the ;PQ line comes before the SID line (both orders occur among the handshake lines)
-	Prompt     string            `json:"prompt"`     // the master's prompt line, must end in ">"
-	Msgs       []PeerMsg         `json:"msgs"`       // what the peer has to send
-	Answers    map[string]string `json:"answers"`    // library MID -> answer token: + Y y - N n R r = L l H h !0 A0 a0
-	DefaultAns string            `json:"defaultans"` // answer token for MIDs not listed
-	PreFS      []string          `json:"prefs"`      // comment / ;PM lines before each FS line
-	PreProp    []string          `json:"preprop"`    // comment / ;PM lines before each proposal block
-	HangUpAfterFQ bool           `json:"hangupafterfq"` // CMS habit: the connection is closed right after FQ was sent
-	EarlyFQ    bool              `json:"earlyfq"`    // CMS style: FQ instead of FF when nothing (more) to send, whatever the other side said
-	TrailingLF bool              `json:"trailinglf"` // terminate lines with CR LF instead of CR
-	FFFirst    bool              `json:"fffirst"`    // send FF in the first own turn although messages are pending (they "arrive later")
+	Master        bool              `json:"master"`        // the peer initiates the handshake
+	Sid           string            `json:"sid"`           // complete SID line without CR
+	Motd          []string          `json:"motd"`          // free text before the handshake (master only)
+	Comments      []string          `json:"comments"`      // comment lines (";...") placed inside the handshake
+	Fw            string            `json:"fw"`            // complete ;FW line or ""
+	PQ            string            `json:"pq"`            // secure login challenge ("" = none; master only)
+	HasPQ         bool              `json:"haspq"`         // send ;PQ even when the challenge is empty
+	PQFirst       bool              `json:"pqfirst"`       // the ;PQ line comes before the SID line (both orders occur among the handshake lines)
+	Prompt        string            `json:"prompt"`        // the master's prompt line, must end in ">"
+	Msgs          []PeerMsg         `json:"msgs"`          // what the peer has to send
+	Answers       map[string]string `json:"answers"`       // library MID -> answer token: + Y y - N n R r = L l H h !0 A0 a0
+	DefaultAns    string            `json:"defaultans"`    // answer token for MIDs not listed
+	PreFS         []string          `json:"prefs"`         // comment / ;PM lines before each FS line
+	PreProp       []string          `json:"preprop"`       // comment / ;PM lines before each proposal block
+	HangUpAfterFQ bool              `json:"hangupafterfq"` // CMS habit: the connection is closed right after FQ was sent
+	// CmsQuit: what Winlink's CMS does (fbb/wl2k_test.go): when its block has been answered and transferred and it has nothing
+	// more to send, it does not wait for the other station's turn but says FQ and hangs up
+	CmsQuit     bool `json:"cmsquit"`
+	CmsLingerMs int  `json:"cmslingerms"` // the hang-up follows the FQ after this many milliseconds
+	EarlyFQ     bool `json:"earlyfq"`     // CMS style: FQ instead of FF when nothing (more) to send, whatever the other side said
+	TrailingLF  bool `json:"trailinglf"`  // terminate lines with CR LF instead of CR
+	FFFirst     bool `json:"fffirst"`     // send FF in the first own turn although messages are pending (they "arrive later")
 }
 
 type peer struct {
@@ -319,6 +324,25 @@ func (p *peer) myTurn() (quit bool, err error) {
 		if !p.sent[mid] {
 			p.sent[mid] = true
 			p.ev(rec.Event{"op": "SetSent", "m": mid, "rej": true})
+		}
+	}
+	if p.sc.CmsQuit {
+		more := false
+		for _, m := range p.pending() {
+			inBlock := false
+			for _, b := range block {
+				inBlock = inBlock || b.Spec.MID == m.Spec.MID
+			}
+			more = more || !inBlock
+		}
+		if !more {
+			p.ev(rec.Event{"op": "CmsIntent"})
+			err := p.send("FQ")
+			if p.sc.CmsLingerMs > 0 {
+				time.Sleep(time.Duration(p.sc.CmsLingerMs) * time.Millisecond)
+			}
+			p.conn.Close()
+			return true, err
 		}
 	}
 	// the block is confirmed by the first byte of the library's next turn
